@@ -264,7 +264,9 @@ def diff_fields(before, after):
         for k in b['vals']:
             if b['vals'][k] != a['vals'].get(k): note('value', {'obj': i, 'attr': k, 'value': [b['vals'][k], a['vals'].get(k)]})
         for k in b['colls']:
-            cb, ca = b['colls'][k], a['colls'].get(k)
+            # no SetData at all == an empty SetData that is not loaded and has nothing pending (reverse_add creates such a placeholder)
+            EMPTY = {'items': [], 'added': [], 'removed': [], 'count': None, 'full': False}
+            cb, ca = b['colls'][k] or EMPTY, a['colls'].get(k) or EMPTY
             if cb == ca: continue
             if cb is None or ca is None: note('items', {'obj': i, 'attr': k, 'setdata': [cb, ca]}); continue
             for f in ('items', 'added', 'removed', 'count', 'full'):
@@ -593,6 +595,18 @@ def flush_ids(prev, snap):
     return [[i, a['pk']] for i, (b, a) in enumerate(zip(prev['objs'], snap['objs'])) if b['pk'] is None and a['pk'] is not None]
 
 
+def uses_dead(w, op):
+    """a value operand of the call is a deleted object"""
+    ids = []
+    def val(v):
+        if 'ref' in v and v['ref'] is not None: ids.append(v['ref'])
+        if 'coll' in v: ids.extend(v['coll'])
+    for _, v in op.get('vals', []) + op.get('kv', []): val(v)
+    if 'v' in op: val(op['v'])
+    ids.extend(op.get('items', []))
+    return any(0 <= i < len(w.objs) and w.objs[i]._status_ in DEL for i in ids)
+
+
 def vkey(op, err, cats):
     return 'failed-call-changed-session:%s/%s/%s' % (op['k'], err, '+'.join(cats))
 
@@ -652,10 +666,14 @@ def oracle_phase(ctx, rng, nhist, nops):
             prev = w.snapshot()
             flush_failed = False
             warm = rng.choice([3, 5, 7])
+            tainted = False      # a deleted object was passed as a value to a call that accepted it
             for step_no in range(nops):
                 op, tag = gen_op(rng, w, 0.0 if step_no < warm else pbad, force_create=step_no < warm and rng.random() < 0.8)
+                dead_operand = uses_dead(w, op)
                 err = w.apply(op)
                 snap = w.snapshot()
+                tainted = tainted or (dead_operand and err is None)
+                snap['tainted'] = tainted
                 if op['k'] == 'flush': op['ids'] = flush_ids(prev, snap)
                 ops.append(op)
                 ctx.count('op:%s:%s' % (op['k'], err or 'ok'))
@@ -691,7 +709,11 @@ def oracle_phase(ctx, rng, nhist, nops):
             try:
                 r2 = run_real(spec, good, want_db=True)
                 ctx.case({'commit-compare': h}, nontrivial=False, kind='commit-compare')
-                if r2['db'] != final_db:
+                if len(r2['steps']) != len(good) or any(e is not None for e, _ in r2['steps']):
+                    # a call that succeeded in the history did not succeed in the replay (a cascade's outcome depends on Python's set
+                    # iteration order): the two databases are not comparable
+                    ctx.count('commit-compare:replay-did-not-reproduce-the-successful-calls')
+                elif r2['db'] != final_db:
                     ctx.count('oracle:commit-differs')
                     tabs = sorted(t for t in final_db if not isinstance(r2['db'], dict) or final_db[t] != r2['db'].get(t))
                     ctx.violation('after commit the database differs from a replay of only the successful calls',
@@ -748,6 +770,18 @@ def obs_diff(m, r):
 LOOSE_ERR = {'RecursionError'}
 
 
+def real_outcome_can_be(spec, ops, want):
+    """re-executes the history on fresh real classes (up to 6 times; object addresses, hence set orders, differ between executions):
+    does the real code ever give the outcome `want` for the last call?"""
+    for _ in range(6):
+        try:
+            r = run_real(spec, [dict(o) for o in ops], stop_on_change=False)
+        except Exception:
+            return False
+        if len(r['steps']) == len(ops) and r['steps'][-1][0] == want: return True
+    return False
+
+
 def dangling(snap):
     """a live object references an object that is deleted"""
     objs = snap['objs']
@@ -790,16 +824,17 @@ def tie_phase(ctx, batch):
                 ctx.divergence('model rejected a call the engine generated', hist, model=merr, impl=err); break
             multi = ops[i]['k'] in ('delete', 'setm', 'create') or len(ops[i].get('items', [])) > 1 or len((ops[i].get('v') or {}).get('coll', [])) > 1
             prev_snap = real[i - 1][1] if i else None
-            if err in ('AssertionError', 'UnrepeatableReadError') and merr != err and prev_snap is not None and (dangling(prev_snap) or prev_snap.get('dangling')):
+            if err in ('AssertionError', 'UnrepeatableReadError') and merr != err and prev_snap is not None and \
+                    (dangling(prev_snap) or prev_snap.get('dangling') or prev_snap.get('tainted')):
                 # a deleted object was passed as a value earlier (Pony accepts it in places): flush dropped its SetData / wrote a foreign key
                 # to a row that does not exist or belongs to another object, so a later load disagrees with the session.
                 # Outside the model (it has no database); the before/after oracle has checked the call
                 ctx.count('tie:%s-on-a-reference-to-a-deleted-object' % err); break
             if (merr is None) != (err is None):
                 if merr in LOOSE_ERR or err in LOOSE_ERR: ctx.count('tie:cascade-cycle-outcome-differs'); break
-                if ops[i]['k'] == 'delete' and m['trail'] >= 2:
+                if 'ConstraintError' in (merr, err) and ops[i]['k'] in ('delete', 'remove', 'clear', 'set', 'setm') and real_outcome_can_be(spec, ops[:i + 1], merr):
                     # whether a cascade reaches a refusing object before or after that object was deleted through another path depends
-                    # on Python's set iteration order (the real outcome varies from run to run); the model iterates in ascending id order
+                    # on Python's set iteration order: re-executing the history on the real code gave the model's outcome as well
                     ctx.count('tie:cascade-outcome-depends-on-set-order'); break
                 ctx.divergence('outcome of the call differs', hist, model=merr, impl=err); break
             if merr != err:
